@@ -475,3 +475,7 @@ func vfUF(tag string, in []byte, n int) []byte {
 // vfTimersFire tells the engine whether timers armed by the library may expire
 // on this path (natively: the harness chooses deadlines accordingly).
 func vfTimersFire(b bool) {}
+
+// vfSymbolic is true when the harness is executed by the symbolic engine and
+// false in a native replay.
+func vfSymbolic() bool { return false }
